@@ -47,6 +47,9 @@ structure Tables where
   descRaw : Bool
   toolOmitsDirectives : Bool
   assureOnce : Bool
+  dirLoopByVisited : Bool
+  typeLookupFindsDirectives : Bool
+  argPosAfterToken : Bool
   subOrderByMap : Bool
   dirRequiredUnchecked : Bool
   dirRefTypeFirst : Bool
